@@ -186,3 +186,99 @@ func skolemize(goal string, fresh func() string) (string, []string) {
 func hasQuantifier(s string) bool {
 	return strings.Contains(s, "(forall ") || strings.Contains(s, "(exists ")
 }
+
+// ---------------------------------------------------------------------------
+// Linear normalisation of integer terms built with + and -: keeps index terms
+// canonical so that quantifier triggers see the bound variable itself.
+// ---------------------------------------------------------------------------
+
+func linNormalize(t string) string {
+	if !strings.HasPrefix(t, "(+ ") && !strings.HasPrefix(t, "(- ") {
+		return t
+	}
+	x, err := parseSx(t)
+	if err != nil {
+		return t
+	}
+	coef := map[string]int64{}
+	var order []string
+	var konst int64
+	ok := true
+	var walk func(x *sx, sign int64)
+	walk = func(x *sx, sign int64) {
+		if x.list == nil {
+			var n int64
+			if _, err := fmt.Sscanf(x.atom, "%d", &n); err == nil && fmt.Sprint(n) == x.atom {
+				konst += sign * n
+				return
+			}
+			if _, seen := coef[x.atom]; !seen {
+				order = append(order, x.atom)
+			}
+			coef[x.atom] += sign
+			return
+		}
+		switch x.head() {
+		case "+":
+			for _, c := range x.list[1:] {
+				walk(c, sign)
+			}
+			return
+		case "-":
+			if len(x.list) == 2 {
+				walk(x.list[1], -sign)
+				return
+			}
+			walk(x.list[1], sign)
+			for _, c := range x.list[2:] {
+				walk(c, -sign)
+			}
+			return
+		}
+		s := x.String()
+		if _, seen := coef[s]; !seen {
+			order = append(order, s)
+		}
+		coef[s] += sign
+	}
+	walk(x, 1)
+	if !ok {
+		return t
+	}
+	var pos, neg []string
+	for _, a := range order {
+		c := coef[a]
+		switch {
+		case c == 0:
+		case c == 1:
+			pos = append(pos, a)
+		case c == -1:
+			neg = append(neg, a)
+		case c > 1:
+			pos = append(pos, fmt.Sprintf("(* %d %s)", c, a))
+		default:
+			neg = append(neg, fmt.Sprintf("(* %d %s)", -c, a))
+		}
+	}
+	if konst > 0 {
+		pos = append(pos, fmt.Sprint(konst))
+	} else if konst < 0 {
+		neg = append(neg, fmt.Sprint(-konst))
+	}
+	var p string
+	switch len(pos) {
+	case 0:
+		p = "0"
+	case 1:
+		p = pos[0]
+	default:
+		p = "(+ " + strings.Join(pos, " ") + ")"
+	}
+	if len(neg) == 0 {
+		return p
+	}
+	if len(pos) == 0 && len(neg) == 1 {
+		return "(- " + neg[0] + ")"
+	}
+	return "(- " + p + " " + strings.Join(neg, " ") + ")"
+}
